@@ -37,7 +37,11 @@ def meta_values():
 
 
 def metadata_obj():
-    return st.one_of(st.none(), st.just({}), st.dictionaries(st.sampled_from(KEYS), meta_values(), min_size=1, max_size=3))
+    typed = st.tuples(st.lists(st.integers(0, 199), min_size=1, max_size=3), st.sampled_from(["float32", "int64", "uint8", "bool", "int32"])).map(
+        lambda t: {"__tensor__": t[0], "dtype": t[1]})
+    # the last form: a TOP-LEVEL tensor that is not float64 (counters, samples, flags) next to ordinary entries
+    return st.one_of(st.none(), st.just({}), st.dictionaries(st.sampled_from(KEYS), meta_values(), min_size=1, max_size=3),
+                     st.tuples(st.sampled_from(KEYS), typed, st.dictionaries(st.sampled_from(KEYS), meta_values(), max_size=2)).map(lambda t: dict(t[2], **{t[0]: t[1]})))
 
 
 def decode_meta(x):
@@ -96,7 +100,7 @@ def programs(draw, tier):
         if kind == "reserved":
             op["key"] = draw(st.sampled_from(["rbm_am", "rbm_ph", "unitary_dict"]))
         if kind == "load":
-            op["target"] = draw(st.sampled_from(["fresh", "fresh_extra_unitary", "used", "self", "self"]))
+            op["target"] = draw(st.sampled_from(["fresh", "fresh_extra_unitary", "used", "self", "self", "shared_dict"]))
         if kind in ("train", "model_saver", "randomise"):
             op["seed"] = draw(st.integers(0, 2 ** 31 - 1))
         ops.append(op)
@@ -301,8 +305,23 @@ def check(case):
                         tgt = state
                     else:
                         how = "fresh" if how == "self" else how
-                        tgt = fresh_like(rec["spec"], how)
+                        sibling = None
+                        if how == "shared_dict" and rec["spec"]["type"] != "positive":
+                            # shared object: the load target and a sibling state were built from the SAME dictionary object (whose X, Y and extra
+                            # letter Q differ from anything saved); loading into the target must leave the sibling's and the caller's dictionary alone
+                            from qucumber.utils import unitaries as UN_
+                            s_ = rec["spec"]
+                            shared_d = UN_.create_dict(X=R.c_to_lib(R.unitary_from_angles(0.9, 0.4, -0.3, 0.2)), Q=R.c_to_lib(R.unitary_from_angles(0.3, -0.2, 0.7, 0.1)))
+                            keep_d = {k_: v_.clone() for k_, v_ in shared_d.items()}
+                            mk_ = (lambda: ComplexWaveFunction(s_["n"], s_["nh"], unitary_dict=shared_d, gpu=False)) if s_["type"] == "complex" else \
+                                  (lambda: DensityMatrix(s_["n"], s_["nh"], s_["na"], unitary_dict=shared_d, gpu=False))
+                            tgt, sibling = mk_(), mk_()
+                        else:
+                            tgt = fresh_like(rec["spec"], "fresh" if how == "shared_dict" else how)
                     with_loc(fj, "rb", op.get("loc", "str"), lambda loc: tgt.load(loc))
+                    if how == "shared_dict" and sibling is not None:
+                        require(same_udict(keep_d, udict_of(sibling)) and same_udict(keep_d, {k_: v_ for k_, v_ in shared_d.items()}), "load:shared-dictionary-altered",
+                                "load() into one state altered the unitary dictionary of a sibling state built from the same dictionary object (or the caller's dictionary itself)")
                     labels.add("load_target=" + how)
                 else:
                     tgt = with_loc(fj, "rb", op.get("loc", "str"), lambda loc: cls[rec["spec"]["type"]].autoload(loc, gpu=False))
